@@ -409,6 +409,27 @@ def gen_chain(rng):
     return doc_of(objs), kind
 
 
+def gen_dag(rng):
+    """shared sub-structures: the number of references followed straddles the budget (= number of objects)"""
+    k, L = rng.randint(1, 6), rng.randint(1, 6)
+    dest = ('Dest', A([REF(1), N('Fit')]))
+    if rng.random() < 0.6:
+        link = rng.choice(['First', 'Next'])
+        shared = [(10 + j, D([('Title', S(b's%d' % j)), dest] + ([(link if rng.random() < 0.8 else 'Next', REF(11 + j))] if j < L - 1 else [])))
+                  for j in range(L)]
+        items = [(3 + i, D([('Title', S(b'i%d' % i)), dest, ('First', REF(10))] + ([('Next', REF(4 + i))] if i < k - 1 else [])))
+                 for i in range(k)]
+        pad = [(30 + j, NULL) for j in range(rng.choice([0, 0, 1, 3, 8]))]
+        objs = [(1, D([('Type', N('Catalog')), ('Outlines', REF(2))])), (2, D([('First', REF(3))]))] + items + shared + pad
+        return doc_of(objs), 'outline'
+    shared = [(10 + j, D(([('Kids', A([REF(11 + j)] * rng.choice([1, 1, 2])))] if j < L - 1 else []) +
+                         [('Names', A([S(b'n%d' % j), D([('D', A([REF(1), N('Fit')]))])]))])) for j in range(L)]
+    pad = [(30 + j, NULL) for j in range(rng.choice([0, 0, 1, 3, 8]))]
+    objs = [(1, D([('Type', N('Catalog')), ('Outlines', REF(2)), ('Dests', REF(3))])), (2, D([])),
+            (3, D([('Kids', A([REF(10)] * k))]))] + shared + pad
+    return doc_of(objs), 'nametree'
+
+
 def gen_wellformed(rng):
     """a conventional document: page tree, contents, resources with fonts and images, annotations, an outline
     with named and explicit destinations"""
@@ -462,6 +483,9 @@ def gen_cases(rng, tier):
         elif r < 0.16:
             line, kind = gen_chain(rng)
             cases.append((line, {'kind': 'chain-' + kind, 'nontrivial': True}))
+        elif r < 0.26:
+            line, kind = gen_dag(rng)
+            cases.append((line, {'kind': 'dag-' + kind, 'nontrivial': True}))
         else:
             p = rng.choice([0.05, 0.15, 0.3, 0.5])
             cases.append((gen_chaos(rng, p), {'kind': 'chaos-%d' % int(p * 100), 'nontrivial': True}))
@@ -492,7 +516,7 @@ SPEC = {
             '34 keys the query code reads, stream, reference to a random / dangling / own id) and otherwise to its expected kind '
             'with references to random objects of the expected role (cycles through Parent, Kids, First, Next, Contents, '
             'Length, Count ...); chains of 5..300 links at every limit (dereference, Contents, Parent, First, Next, Kids, page '
-            'tree, direct nesting); well-formed documents; the 16 witnesses of the repaired defects; every query is called for '
+            'tree, direct nesting); outlines and name trees with shared sub-structures whose unfolding straddles the reference budget; well-formed documents; the 16 witnesses of the repaired defects; every query is called for '
             'every object id plus a dangling one; non-trivial = all; distinct = distinct case text',
     'extra_trusted': ['C13: worker isolation (child process per case, 4 s wall-clock per query group) decides hang/abort; '
                       'panic classes are read from the panic message',
